@@ -197,7 +197,7 @@ func (r *Run) compare(method string) {
 			}
 		}
 	}
-	if len(r.Obs) != len(r.B.Steps) && r.Void == "" {
+	if len(r.Obs) != len(r.B.Steps) && r.Void == "" && !r.Truncated {
 		r.Drift = append(r.Drift, fmt.Sprintf("policy %s: executed %d of %d steps", r.B.Policy.Key(), len(r.Obs), len(r.B.Steps)))
 	}
 }
